@@ -92,6 +92,11 @@ def gen(seed, tier):
             b = copy.deepcopy(a)
         op = rng.choice(["eq", "eq", "eq", "teq", "teq", "isempty", "count", "tcount", "nonempty"])
         case = {"prop": PROP, "op": op, "d": d, "da": da, "a": a, "kind": kind, "fdflt": rng.random() < 0.15}
+        if op in ("eq", "teq", "isempty", "count") and rng.random() < 0.15:
+            # leaf values (and defaults) mapped injectively to floats that differ only around the 10th digit:
+            # equality, emptiness and counting are exact, not approximate
+            case["near"] = True
+            case["fdflt"] = False
         if kind == "owned" or op in ("teq", "tcount"):
             r3 = rng.random()
             if r3 < 0.2:
@@ -138,7 +143,20 @@ def run(case):
     da = case["da"]
     if case.get("fdflt"):
         da = float(da)
-    fa = H.build_fiber(case["a"], d + 1, case.get("fibdfltA", da) if case["kind"] == "owned" else da)
+    near = case.get("near")
+
+    def fmap(v):
+        return 1.0 + v * 6e-10
+
+    def nmap(tree, depth):
+        return [[c, (fmap(p) if depth == 1 else nmap(p, depth - 1))] for c, p in tree]
+    ta_tree, tb_tree = case["a"], case.get("b")
+    if near:
+        ta_tree = nmap(ta_tree, d + 1)
+        tb_tree = nmap(tb_tree, d + 1) if tb_tree is not None else None
+        da = fmap(da)
+        case.pop("fibdfltA", None)
+    fa = H.build_fiber(ta_tree, d + 1, case.get("fibdfltA", da) if case["kind"] == "owned" else da)
     objs, tensors = [fa], []
     ta = tb = None
     if case["kind"] == "owned":
@@ -151,9 +169,10 @@ def run(case):
         objs = [fa]
     fb = None
     if "b" in case:
-        fb = H.build_fiber(case["b"], d + 1, case["db"])
+        dbv = fmap(case["db"]) if near else case["db"]
+        fb = H.build_fiber(tb_tree, d + 1, dbv)
         if case["kind"] == "owned":
-            tb = ft.Tensor.fromFiber(rank_ids=case.get("idsB", [f"R{d - k}" for k in range(d + 1)]), fiber=fb, default=case["db"],
+            tb = ft.Tensor.fromFiber(rank_ids=case.get("idsB", [f"R{d - k}" for k in range(d + 1)]), fiber=fb, default=dbv,
                                      shape=(case.get("shapeA") if case.get("fmtA") else case.get("shapeB")))
             # both sides declare the same ranks uncompressed (see DESIGN, readings: a U-format and a C-format
             # fiber of equal content are told apart by the unchanged code; C12 does not quantify over formats)
@@ -193,6 +212,16 @@ def run(case):
         case["impl"] = H.snapshot(res)
         if "U" not in case.get("fmtA", []):
             side["pruned_equals_original"] = bool(res == fa)
+    if ta is not None and op in ("eq", "teq", "count", "tcount", "isempty") and "U" not in case.get("fmtA", []):
+        # an owner-less copy of a tensor's tree is an equal tree with the same count (taken on a deep copy
+        # of the tensor, so that nothing done here can disturb the operands)
+        try:
+            r0 = copy.deepcopy(ta).getRoot()
+            c0 = r0.copy(preserve_owner=False)
+            side["detached_copy_equal"] = bool(c0 == r0) and bool(r0 == c0) and c0.countValues() == r0.countValues() \
+                and bool(c0.isEmpty()) == bool(r0.isEmpty())
+        except Exception as e:
+            side["detached_copy:" + H.err_class(e)] = False
     after = ([H.snapshot(o) for o in objs], [_ranks(t) for t in tensors])
     side["operands_unchanged"] = before[0] == after[0]
     side["rank_lists_unchanged"] = before[1] == after[1]
